@@ -448,8 +448,12 @@ pub fn generate(rng: &mut Rng, profile: &str, index: u64) -> AHistory {
         let slots = *g.rng.pick(&[8u32, 21, 21, 100]);
         let duration = *g.rng.pick(&[120u32, 200, 200, 500]);
         let cfg = Cfg { slots, duration, delta };
-        g.locs = (1..=(4 + g.rng.below(3))).collect();
-        let nu = 1 + g.rng.below(2);
+        // one time in four: MANY appointments of one user (more than ten rows in one breach batch / refund batch)
+        let many = g.rng.chance(1, 4);
+        g.locs = if many { (1..=16).collect() } else { (1..=(4 + g.rng.below(3))).collect() };
+        let nu = if many { 1 } else { 1 + g.rng.below(2) };
+        let (slots, cfg) = if many { (100u32, Cfg { slots: 100, duration, delta }) } else { (slots, cfg) };
+        let _ = slots;
         for u in 0..nu {
             g.users.push(u);
             g.steps.push(AStep { op: AOp::Register(u), script: vec![] });
@@ -459,7 +463,7 @@ pub fn generate(rng: &mut Rng, profile: &str, index: u64) -> AHistory {
         }
         let mut disputes: Vec<u64> = vec![];
         for u in 0..nu {
-            let k = 2 + g.rng.below(3);
+            let k = if many { 11 + g.rng.below(5) } else { 2 + g.rng.below(3) };
             let mut locs = g.locs.clone();
             for _ in 0..k {
                 if locs.is_empty() {
